@@ -22,5 +22,6 @@ func genAll() {
 	genSync()
 	genHandler()
 	genNetRules()
+	genHTTPW()
 	genScripts()
 }
